@@ -262,4 +262,21 @@ PROPS = {
                      "not under contract: run(*actors), wait() on its own, cancel_and_await, run_forever; 'never runs twice "
                      "concurrently' rests on start()'s idempotence plus _run_loop awaiting each invocation before the next"],
     ),
+    "C19": dict(
+        modules=["fe_fetcher"],
+        contracts=[f"{FS}:MetricFetcher._synchronize_and_fetch_fallback", f"{FS}:MetricFetcher.fetch_next_with_fallback",
+                   f"{FS}:MetricFetcher._fetch_next"],
+        lemmas=[],
+        bounded=[],
+        level="proof",
+        explanation="MetricFetcher's switching logic against scripted primary/fallback streams on a common grid (timestamps "
+                    "counted in grid steps): the fallback stream is read forward until it reaches the primary sample's "
+                    "timestamp (loop invariant), an invalid primary sample is replaced by the fallback sample of the same "
+                    "timestamp, a valid one is used, the fallback is started lazily and once, a failing primary stream falls "
+                    "through to the fallback; no exception other than the streams' own errors escapes.",
+        assumptions=[EXTRACTION, "sample values in IEEE mode (NaN / inf are 'missing'); timestamps as integer grid ticks",
+                     "streams are scripted collaborators implementing the channel model (receive returns the next sample or "
+                     "raises ReceiverStoppedError / ReceiverError)",
+                     "end-to-end 'output equals the true value' additionally needs C05/C06; not re-proved here"],
+    ),
 }
